@@ -47,7 +47,10 @@ pub struct State {
 
 pub struct Sched {
     pub m: Mutex<State>,
+    /// the controller waits here
     pub cv: Condvar,
+    /// task i waits on cv_task[i % 64] (one waiter per condvar in practice: no thundering herd)
+    pub cv_task: Vec<Condvar>,
 }
 
 thread_local! {
@@ -129,7 +132,7 @@ impl Observer for Router {
         st.status[idx] = TStatus::Parked(op);
         sched.cv.notify_all();
         while st.grant != Some(idx) {
-            st = sched.cv.wait(st).unwrap();
+            st = sched.cv_task[idx % 64].wait(st).unwrap();
         }
         st.grant = None;
         st.status[idx] = TStatus::Running;
@@ -175,6 +178,7 @@ impl Sched {
                 owner: FxHashMap::default(),
             }),
             cv: Condvar::new(),
+            cv_task: (0..64).map(|_| Condvar::new()).collect(),
         })
     }
 
@@ -205,6 +209,9 @@ impl Sched {
         st.active = false;
         st.grant = None;
         self.cv.notify_all();
+        for c in &self.cv_task {
+            c.notify_all();
+        }
     }
 
     /// wait until every task is parked (at Ready) — true on success
@@ -230,7 +237,7 @@ impl Sched {
         let mut st = self.m.lock().unwrap();
         st.grant = Some(task);
         st.status[task] = TStatus::Running;
-        self.cv.notify_all();
+        self.cv_task[task % 64].notify_all();
         loop {
             match st.status[task] {
                 TStatus::Running => {}
@@ -281,7 +288,22 @@ pub enum ChoiceMode<'a> {
 
 /// Drive one controlled search to completion following `prefix` (then default choices).
 /// The search itself must already be running on another thread inside the explorer's pool.
+/// which task is taken by default (beyond the prefix) when the running task has finished
+#[derive(Clone, Copy, Debug, PartialEq, Eq)]
+pub enum OrderPolicy {
+    /// lowest index first (the order of the sorted root-move names)
+    First,
+    /// highest index first (the reverse order)
+    Last,
+    /// start with task k, then ascending, wrapping around
+    Rotate(usize),
+}
+
 pub fn control(s: &Sched, prefix: &[usize], mode: &ChoiceMode, step_timeout: Duration) -> Result<ExecRecord, String> {
+    control_with_policy(s, prefix, mode, step_timeout, OrderPolicy::First)
+}
+
+pub fn control_with_policy(s: &Sched, prefix: &[usize], mode: &ChoiceMode, step_timeout: Duration, policy: OrderPolicy) -> Result<ExecRecord, String> {
     let mut rec = ExecRecord::default();
     if !s.wait_all_ready(Duration::from_secs(120)) {
         return Err("not every root task reached its first yield point (pool too small?)".into());
@@ -327,6 +349,16 @@ pub fn control(s: &Sched, prefix: &[usize], mode: &ChoiceMode, step_timeout: Dur
                 if enabled_all.len() == 1 {
                     enabled_all[0]
                 } else {
+                    // canonical order of the enabled tasks under the policy: choice 0 is the policy's default
+                    let mut enabled_all = enabled_all.clone();
+                    match policy {
+                        OrderPolicy::First => {}
+                        OrderPolicy::Last => enabled_all.reverse(),
+                        OrderPolicy::Rotate(k) => {
+                            let n = s.m.lock().unwrap().status.len().max(1);
+                            enabled_all.sort_by_key(|t| (t + n - (k % n)) % n);
+                        }
+                    }
                     let i = rec.points.len();
                     let ch = if i < prefix.len() { prefix[i] } else { 0 };
                     if ch >= enabled_all.len() {
